@@ -265,11 +265,15 @@ def main(argv=None):
         jobs.append((prop, "lemma", l.name, a.tier, src, None))
     # contracts of ANOTHER property's module that carry clauses of this property too (one function, several properties): verified as part of this check as well
     shared_regs = {}
+    shared_keys = {}  # contract key -> (registry, contract module path) of the property whose module verifies it
     for oprop, key in getattr(mod, "SHARED_JOBS", []):
         if a.only and a.only not in key:
             continue
         if oprop not in shared_regs:
-            shared_regs[oprop] = load_contracts(oprop)[0].REG
+            omod, opath = load_contracts(oprop)
+            shared_regs[oprop] = omod.REG
+            shared_regs[oprop]._module_path = opath
+        shared_keys[key] = (shared_regs[oprop], shared_regs[oprop]._module_path)
         jobs.append((oprop, "contract", key, a.tier, src, None))
     if not jobs:
         print(f"CHECKER-ERROR {prop}: zero verification jobs (vacuity guard)")
@@ -314,8 +318,13 @@ def main(argv=None):
     os.makedirs(os.path.join(ROOT, "replays"), exist_ok=True)
     for name, ag in sorted(agg.items()):
         if ag["verdict"] == "refuted":
-            rp = write_replay(prop, name, ag, cpath, src)
-            cobj = reg.contracts.get(ag["target"]) or next((r.contracts[ag["target"]] for r in shared_regs.values() if ag["target"] in r.contracts), None)
+            if ag["target"] in shared_keys:
+                # a shared job: the contract (and its replay set-up) is the OTHER module's, not this module's stub of the same function
+                rp = write_replay(prop, name, ag, shared_keys[ag["target"]][1], src)
+                cobj = shared_keys[ag["target"]][0].contracts.get(ag["target"])
+            else:
+                rp = write_replay(prop, name, ag, cpath, src)
+                cobj = reg.contracts.get(ag["target"])
             if cobj is not None and not cobj.replayable:
                 res = {"confirmed": False, "why": "contract marked not natively replayable (needs a live engine / threads); the failed obligation and the solver's counter-model are in the replay file"}
             elif ag["model"] is not None and ag["kind"] in ("post", "raises"):
